@@ -206,6 +206,10 @@ type Topic struct {
 	statsKey  string
 
 	handlers []*bufHandler
+
+	// collectMu serializes collect so that concurrent publishers hand their
+	// events to the handlers in the same order in which the state was updated.
+	collectMu sync.Mutex
 }
 
 func (s *Topics) newTopic(id string) *Topic {
@@ -318,6 +322,8 @@ func (t *Topic) close() {
 }
 
 func (t *Topic) collect(event Event) error {
+	t.collectMu.Lock()
+	defer t.collectMu.Unlock()
 
 	prev, ok := t.updateEvent(event.State)
 	if ok {
